@@ -20,7 +20,7 @@ inductive SKind where
   deriving DecidableEq, Repr
 
 def ArgKind.numeric : ArgKind → Bool
-  | .int | .u64 | .usz | .u32 | .flt => true
+  | .int | .u64 | .usz | .u32 | .flt | .pos => true
   | _ => false
 
 def SKind.fits : SKind → ArgKind → Bool
@@ -161,14 +161,15 @@ def rowsDescribe (src : List SRow) (model : List ShapeRow) : Bool :=
 def kindTexts : SKind → List Bytes
   | .k .int | .k .usz | .k .u32 => [Lit.notInt.text]
   | .k .flt => [Lit.notFloat.text]
+  | .k .pos => [Lit.notInt.text, Lit.syntax.text]
   | .k .u64 => [Lit.u64Empty.text, Lit.u64Invalid.text, Lit.u64Overflow.text]
-  | .num => [Lit.notInt.text, Lit.notFloat.text, Lit.u64Empty.text, Lit.u64Invalid.text, Lit.u64Overflow.text]
+  | .num => [Lit.notInt.text, Lit.notFloat.text, Lit.u64Empty.text, Lit.u64Invalid.text, Lit.u64Overflow.text, Lit.syntax.text]
   | _ => []
 
 /-- the error texts a slot can answer: its own text, else the generic text(s) of its kind -/
 def SArg.texts (a : SArg) : List Bytes :=
   match a.err with
-  | some t => [t]
+  | some t => [t, Lit.syntax.text]        -- the own text, and the range text of a `pos` slot
   | none => kindTexts a.kind
 
 def STail.texts : STail → List Bytes
